@@ -114,3 +114,22 @@ func genCore(out *caseWriter, seed uint64, n int, args []string) error {
 	out.addBatch(items)
 	return nil
 }
+
+func init() {
+	// debugging aid: first line of stderr of `knut balance`
+	observers["dbg.stderr"] = func(in string) string {
+		cfgS, jS := splitInput(in)
+		cfg := DecodeBalCfg(cfgS)
+		j := DecodeJournal(jS)
+		var out string
+		withTempDir(func(dir string) {
+			f := writeFile(dir, "journal.knut", j.Text())
+			r := runKnut(knutBin(), dir, nil, 20*time.Second, append(cfg.Args(), f)...)
+			out = esc(r.Stderr)
+			if len(out) > 200 {
+				out = out[:200]
+			}
+		})
+		return out
+	}
+}
